@@ -1,7 +1,7 @@
 """Rule C08: no public operation panics / overflows in any reachable state."""
 import itertools
 from .mirtab import Engine, Undecided, check_partition, term_str, C
-from .extract import (extract_all_layouts, ScanTable, scancode_impls, initial_state_of, leaf_where, writers_of, public_roots, caller_map,
+from .extract import (observer_fields, extract_all_layouts, ScanTable, scancode_impls, initial_state_of, leaf_where, writers_of, public_roots, caller_map,
                       iter_bodies, PANIC, span_line, conc, value_atoms)
 from .rules_event import find_generic_method, field_index, _St, KNOWN_API
 from .rules_ps2 import find_method, PS2
@@ -122,6 +122,16 @@ def check_no_panic(ctx, rep, tier):
         args = [('ref', ('H', 'self'), ())] + ([C(0, 'bool')] if ghost and nargs >= 2 else [])
         return en, en.run(fn['path'], args=args, setup=setup)
 
+    # fields that merely observe (a frame counter ...) are not decoder state: they are pinned to their initial value
+    # while exploring (exact: the dataflow analysis shows they influence neither a branch nor another field)
+    obs = observer_fields(ctx, PS2, KNOWN_API)
+    if obs:
+        rep.note('Ps2Decoder fields %s only observe the decoding (not part of its state)' % sorted(prog.adt(PS2)['variants'][0]['fields'][i]['name'] for i in obs))
+
+    def norm(v):
+        if obs and v is not None and v[0] == 'adt':
+            return ('adt', v[1], v[2], tuple(state0[3][i] if i in obs else x for i, x in enumerate(v[3])))
+        return v
     # precise exploration: abstract states with ghost bits, breadth-first, states identified structurally
     seen = {}
     frontier = [({}, state0, 0)]
@@ -145,7 +155,7 @@ def check_no_panic(ctx, rep, tier):
                         report_panic(rep, 'Ps2Decoder::' + fn['name'], lf, 'after %d bit(s): %s' % (depth, term_str(val)[:120]))
                         continue
                     rep.ob('frame decoder classes', 1)
-                    post = lf.cells[('H', 'self')]
+                    post = norm(lf.cells[('H', 'self')])
                     if post not in seen:
                         if depth + 1 > 40 or len(seen) > 3000:
                             closed = False
